@@ -432,7 +432,59 @@ func c15TrimAndClamp(c *Ctx) {
 		return
 	}
 	c.fn(clamp)
-	c.ob("C15.R5", entry.Name+"/clamped-result", w.Pos(lit.Pos()), true, "the returned attribute list is the direct result of "+clamp.Name)
+	// … and stays that: a result kept in a local must not be written between the literal and the return
+	modified := ""
+	{
+		var holder types.Object
+		var p ast.Node = lit
+		if u, ok := w.parent[lit].(*ast.UnaryExpr); ok {
+			p = u
+		}
+		switch a := w.parent[p].(type) {
+		case *ast.AssignStmt:
+			for i, r := range a.Rhs {
+				if ast.Node(r) == p && i < len(a.Lhs) {
+					if id := identOf(a.Lhs[i]); id != nil {
+						holder = info.Defs[id]
+						if holder == nil {
+							holder = info.Uses[id]
+						}
+					}
+				}
+			}
+		case *ast.ValueSpec:
+			for i, r := range a.Values {
+				if ast.Node(r) == p && i < len(a.Names) {
+					holder = info.Defs[a.Names[i]]
+				}
+			}
+		}
+		if holder != nil {
+			ast.Inspect(entry.Body, func(q ast.Node) bool {
+				var lhs []ast.Expr
+				switch y := q.(type) {
+				case *ast.AssignStmt:
+					lhs = y.Lhs
+				case *ast.IncDecStmt:
+					lhs = []ast.Expr{y.X}
+				}
+				for _, l := range lhs {
+					if _, isIdent := unparen(l).(*ast.Ident); isIdent {
+						continue
+					}
+					if r := identOfRoot(stripIndexes(l)); r != nil && info.Uses[r] == holder && l.Pos() > lit.End() {
+						modified = exprStr(l) + " at " + w.Pos(l.Pos())
+					}
+				}
+				return true
+			})
+		}
+	}
+	if modified != "" {
+		c.ob("C15.R5", entry.Name+"/clamped-result", w.Pos(lit.Pos()), false, "the result is written after it was built from the clamped list ("+modified+"): what is added or changed there was never clamped and can lie outside the returned text")
+		return
+	}
+	c.ob("C15.R5", entry.Name+"/clamped-result", w.Pos(lit.Pos()), true, "the returned attribute list is the direct result of "+clamp.Name+" and is not written afterwards")
 	// the text-length argument is the character count of the returned text
 	sig := clamp.Sig()
 	lenIdx := -1
@@ -726,4 +778,24 @@ func proveClamp(c *Ctx, f *Func, L *types.Var) {
 	okLen := startSym != "" && endB.lower[startSym] && endB.upper["L"]
 	// and Position is that start
 	c.ob("C15.R5", f.Name+"/length-bounds", w.Pos(lenExpr.Pos()), okLen, map[bool]string{true: "Length = end - start with start <= end <= text length: 0 <= Length and Position + Length <= text length", false: "it does not follow from the min/max structure that start <= end <= text length: Length could be negative or reach beyond the text"}[okLen])
+}
+
+// stripIndexes removes index and dereference steps so that the root identifier of a[i].f or (*p).f can be found.
+func stripIndexes(e ast.Expr) ast.Expr {
+	for {
+		switch x := unparen(e).(type) {
+		case *ast.IndexExpr:
+			e = x.X
+		case *ast.StarExpr:
+			e = x.X
+		case *ast.SelectorExpr:
+			inner := stripIndexes(x.X)
+			if inner == x.X {
+				return x
+			}
+			return &ast.SelectorExpr{X: inner, Sel: x.Sel}
+		default:
+			return x
+		}
+	}
 }
